@@ -400,6 +400,7 @@ def run_property(prop, tier='quick', jobs=None, seed=0, only=None, write_baselin
     b_canaries = 0
     b_canary_seen, b_canary_refuted = set(), set()
     native_exceptions = 0
+    native_exception_samples = []
     for (kind, ri, idx, job), res in zip(native_jobs, native_out):
         if kind == 'bounded':
             b = b_results[ri]
@@ -446,6 +447,7 @@ def run_property(prop, tier='quick', jobs=None, seed=0, only=None, write_baselin
             cross_checked += 1
             if res.get('exception') and 'no-unexpected-exception' not in r['clauses']:
                 native_exceptions += 1      # the native run of a path model raised where no symbolic path did (reported in the evidence)
+                if len(native_exception_samples) < 5: native_exception_samples.append(f"{gname}/{cfgname}: {res['exception']}"[:260])
             for n in res['failed']:
                 if n in job[4]:   # proved symbolically, fails natively
                     violations.append({'group': gname, 'cfg': r['cfg'], 'clause': n, 'how': 'native-crosscheck',
@@ -583,7 +585,7 @@ def run_property(prop, tier='quick', jobs=None, seed=0, only=None, write_baselin
         # mode B: a canary (deliberately wrong clause) counts as refuted when it is false in at least one configuration of its group
         'bounded_canaries': len(b_canary_seen), 'bounded_canaries_refuted': len(b_canary_refuted),
         'bounded_canaries_never_refuted': sorted(b_canary_seen - b_canary_refuted)[:20],
-        'cross_checks_native_exception_without_symbolic_one': native_exceptions,
+        'cross_checks_native_exception_without_symbolic_one': native_exceptions, 'native_exception_samples': native_exception_samples,
         'known_findings_reproduced': sorted(known_hits),
         'undecided': len(undecided),
         'functions_under_contract': functions,
